@@ -277,4 +277,49 @@ def rule_d(ctx: Ctx) -> None:
     ctx.explain('C17.d: ValidationContext.__copy__ gives the copy a private converter (and its namespace map).')
 
 
-RULES = [rule_a, rule_b, rule_c, rule_d]
+def rule_e(ctx: Ctx) -> None:
+    """unmap_qname resolves a key with the declarations of the node itself laid *over* the enclosing scope: where both bind a
+    prefix (or the default namespace) the node's own declaration wins, and the mapper's map is not modified."""
+    rule = 'C17.e'
+    f = ctx.idx.method(NM, 'unmap_qname')
+    ctx.analysed(f.qualname)
+    g = cfg_of(ctx, f)
+    defs = [n for n in g.nodes if n.kind == 'stmt' and isinstance(n.ast, (ast.Assign, ast.AnnAssign)) and getattr(n.ast, 'value', None) is not None
+            and text(n.ast.targets[0] if isinstance(n.ast, ast.Assign) else n.ast.target) == 'namespaces'
+            and ('xmlns', 'T') in guards(ctx, f, n)]
+    ctx.floor(rule, 'overlay constructions in unmap_qname', len(defs), 1)
+
+    def from_xmlns(e):
+        return any(isinstance(x, ast.Name) and x.id == 'xmlns' for x in ast.walk(e))
+
+    def from_mapper(e):
+        return 'self.namespaces' in text(e) or 'self._namespaces' in text(e)
+    for n in defs:
+        v = n.ast.value
+        verdict, why = None, ''
+        if isinstance(v, ast.Call) and text(v.func) in ('ChainMap', 'collections.ChainMap') and len(v.args) >= 2:
+            verdict = from_xmlns(v.args[0]) and not from_mapper(v.args[0])
+            why = 'ChainMap looks keys up in its first map first'
+        elif isinstance(v, ast.Dict) and any(k is None for k in v.keys):
+            stars = [val for k, val in zip(v.keys, v.values) if k is None]
+            verdict = len(stars) >= 2 and from_xmlns(stars[-1]) and from_mapper(stars[0])
+            why = 'in a dict display the later `**` operand overrides the earlier'
+        elif from_mapper(v) and not from_xmlns(v):
+            # a copy of the mapper's map, then updated with the declarations
+            fresh = isinstance(v, (ast.DictComp,)) or (isinstance(v, ast.Call) and (text(v.func) in ('dict', 'copy', 'copy.copy')
+                                                                                       or (isinstance(v.func, ast.Attribute) and v.func.attr == 'copy')))
+            ups = [m for m, c in call_nodes(g, lambda c: text(c.func) == 'namespaces.update' and c.args and from_xmlns(c.args[0]))]
+            dom = g.dominators(kinds='nTF')
+            verdict = fresh and bool(ups) and all(n in dom[u] for u in ups)
+            why = 'copy of the enclosing map, then update() with the declarations' if fresh else \
+                'the mapper\'s own map object is updated: the declarations of one node leak into the scope of every later node'
+        else:
+            raise AnalysisError(f'UNRECOGNISED-IDIOM {rule} at {f.loc(n.ast)}: overlay `{text(v)[:60]}`')
+        ctx.ob(rule, 'unmap_qname: the declarations passed for the node override the bindings of the enclosing scope (and the mapper is left untouched)',
+               f.loc(n.ast), bool(verdict), '' if verdict else f'`{text(n.ast)[:70]}` - {why}: a child that redeclares a prefix (or the default namespace) of an '
+               'ancestor is resolved with the ancestor\'s URI and encoded in the wrong namespace', key='unmap_qname|overlay-precedence')
+    ctx.explain('C17.e: the overlay map of NamespaceMapper.unmap_qname is recognised in three forms (copy+update, dict display with '
+                '** operands, ChainMap) and the operand that wins a collision must be the one derived from `xmlns`.')
+
+
+RULES = [rule_a, rule_b, rule_c, rule_d, rule_e]
